@@ -1,39 +1,234 @@
 /-
 C06 — property theorems.  Every theorem is about the range `R` in an arbitrary context
 `P ++ R ++ S` (first = |P|, last = |P|+|R|) and says: the model returns `.ok` (it never
-dereferences anything outside `[first,last)`) of exactly the value the declarative spec
-prescribes, with `P` and `S` unchanged.
+dereferences anything outside `[first,last)`: the "touches nothing outside the range" clause)
+of exactly the value the declarative spec prescribes, with `P` and `S` unchanged.
+No theorem has a size bound; hypotheses are the standard's preconditions.
 -/
-import TetlProofs.C06.Lemmas
+import TetlProofs.C06.Fold
+import TetlProofs.C06.Reverse
 namespace Tetl.C06.Props
 open Tetl Tetl.C06
 variable {α : Type}
 
-/-! ## find / find_if / find_if_not and the folds built on them -/
-
-theorem findLoop_spec (q : α → Bool) (P R S : List α) : ∀ (n i : Nat), i + n = R.length →
-    findLoop q (P ++ R ++ S) P.length (P.length + R.length) n (P.length + i)
-      = .ok (P.length + i + Spec.findIdx q (R.drop i)) := by
-  intro n
-  induction n with
-  | zero =>
-    intro i h
-    have : R.drop i = [] := List.drop_eq_nil_of_le (by omega)
-    simp [findLoop, Spec.findIdx, this]
-  | succ n ih =>
-    intro i h
-    have hi : i < R.length := by omega
-    simp only [findLoop, rdR_ctx P R S i hi, ok_bind, drop_eq_cons hi, Spec.findIdx, List.findIdx_cons]
-    by_cases hq : q R[i]
-    · simp [hq]
-    · rw [show P.length + i + 1 = P.length + (i + 1) from by omega, ih (i + 1) (by omega)]
-      simp [hq, Spec.findIdx]
-      omega
+/-! ## find / find_if / find_if_not, all_of / any_of / none_of, count / count_if -/
 
 /-- `find_if` returns the first position satisfying `p` (or `last`) and reads only inside the range -/
 theorem findIf_eq (p : α → Bool) (P R S : List α) :
     findIf p (P ++ R ++ S) P.length (P.length + R.length) = .ok (P.length + Spec.findIdx p R) := by
   have := findLoop_spec p P R S R.length 0 (by simp)
   simpa [findIf] using this
+
+theorem findIfNot_eq (p : α → Bool) (P R S : List α) :
+    findIfNot p (P ++ R ++ S) P.length (P.length + R.length)
+      = .ok (P.length + Spec.findIdx (fun x => !p x) R) := by
+  have := findLoop_spec (fun x => !p x) P R S R.length 0 (by simp)
+  simpa [findIfNot] using this
+
+theorem find_eq (eq : α → α → Bool) (v : α) (P R S : List α) :
+    find eq v (P ++ R ++ S) P.length (P.length + R.length)
+      = .ok (P.length + Spec.findIdx (fun x => eq x v) R) := by
+  have := findLoop_spec (fun x => eq x v) P R S R.length 0 (by simp)
+  simpa [find] using this
+
+theorem allOf_eq (p : α → Bool) (P R S : List α) :
+    allOf p (P ++ R ++ S) P.length (P.length + R.length) = .ok (R.all p) := by
+  simp only [allOf, findIfNot_eq, ok_bind, pure_eq_ok, Spec.findIdx]
+  congr 1
+  rw [Bool.eq_iff_iff]
+  simp only [beq_iff_eq, Nat.add_left_cancel_iff, findIdx_eq_length_iff, List.all_eq_true]
+  constructor <;> intro h x hx <;> simpa using h x hx
+
+theorem anyOf_eq (p : α → Bool) (P R S : List α) :
+    anyOf p (P ++ R ++ S) P.length (P.length + R.length) = .ok (R.any p) := by
+  simp only [anyOf, findIf_eq, ok_bind, pure_eq_ok, Spec.findIdx]
+  congr 1
+  rw [Bool.eq_iff_iff]
+  simp only [bne_iff_ne, ne_eq, Nat.add_left_cancel_iff, findIdx_eq_length_iff, List.any_eq_true]
+  constructor
+  · intro h
+    refine Classical.byContradiction fun hc => h fun x hx => ?_
+    cases hq : p x
+    · rfl
+    · exact absurd ⟨x, hx, hq⟩ hc
+  · rintro ⟨x, hx, hq⟩ h
+    simp [h x hx] at hq
+
+theorem noneOf_eq (p : α → Bool) (P R S : List α) :
+    noneOf p (P ++ R ++ S) P.length (P.length + R.length) = .ok (!R.any p) := by
+  simp only [noneOf, findIf_eq, ok_bind, pure_eq_ok, Spec.findIdx]
+  congr 1
+  rw [Bool.eq_iff_iff]
+  simp only [beq_iff_eq, Nat.add_left_cancel_iff, findIdx_eq_length_iff, Bool.not_eq_true', List.any_eq_false]
+  constructor <;> intro h x hx <;> simpa using h x hx
+
+theorem countIf_eq (p : α → Bool) (P R S : List α) :
+    countIf p (P ++ R ++ S) P.length (P.length + R.length) = .ok (Spec.count p R) := by
+  have := countLoop_spec p P R S R.length 0 0 (by simp)
+  simpa [countIf] using this
+
+theorem count_eq (eq : α → α → Bool) (v : α) (P R S : List α) :
+    count eq v (P ++ R ++ S) P.length (P.length + R.length) = .ok (Spec.count (fun x => eq x v) R) := by
+  have := countLoop_spec (fun x => eq x v) P R S R.length 0 0 (by simp)
+  simpa [count] using this
+
+/-! ## for_each / for_each_n / transform / copy_if / copy_n / remove_copy(_if) / partition_copy / reverse_copy / rotate_copy -/
+
+/-- `for_each` applies `f` to exactly the elements of the range, in order -/
+theorem forEach_eq (P R S : List α) :
+    forEach (P ++ R ++ S) P.length (P.length + R.length) = .ok R := by
+  have := visitLoop_spec P R S R.length 0 (by simp)
+  simpa [forEach] using this
+
+/-- precondition of for_each_n / copy_n: the source has at least `n` elements -/
+theorem forEachN_eq (P R S : List α) (n : Int) (hn : n.toNat ≤ R.length) :
+    forEachN (P ++ R ++ S) P.length (P.length + R.length) n = .ok (P.length + n.toNat, R.take n.toNat) := by
+  have := visitLoop_spec P R S n.toNat 0 (by simpa using hn)
+  simp only [Nat.add_zero, List.drop_zero] at this
+  unfold forEachN
+  rw [this]
+  rfl
+example : (2 : Int).toNat ≤ [1, 2, 3].length := by decide
+
+theorem copyN_eq (P R S : List α) (n : Int) (hn : n.toNat ≤ R.length) :
+    copyN (P ++ R ++ S) P.length (P.length + R.length) n = .ok (Spec.copyN R n) := by
+  unfold copyN Spec.copyN
+  by_cases h : n > 0
+  · have := visitLoop_spec P R S n.toNat 0 (by simpa using hn)
+    simp only [Nat.add_zero, List.drop_zero] at this
+    rw [if_pos h]
+    exact this
+  · have : n.toNat = 0 := by omega
+    rw [if_neg h, this]
+    rfl
+example : (2 : Int).toNat ≤ [1, 2, 3].length := by decide
+
+theorem transform1_eq (op : α → α) (P R S : List α) :
+    transform1 op (P ++ R ++ S) P.length (P.length + R.length) = .ok (R.map op) := by
+  have := visitLoop_spec P R S R.length 0 (by simp)
+  simp only [Nat.add_zero, List.drop_zero, List.take_length] at this
+  unfold transform1
+  rw [Nat.add_sub_cancel_left, this]
+  rfl
+
+theorem copyIf_eq (p : α → Bool) (P R S : List α) :
+    copyIf p (P ++ R ++ S) P.length (P.length + R.length) = .ok (R.filter p) := by
+  have := copyIfLoop_spec p P R S R.length 0 (by simp)
+  simpa [copyIf] using this
+
+theorem removeCopyIf_eq (p : α → Bool) (P R S : List α) :
+    removeCopyIf p (P ++ R ++ S) P.length (P.length + R.length) = .ok (Spec.remove p R) := by
+  have := copyIfLoop_spec (fun x => !p x) P R S R.length 0 (by simp)
+  simpa [removeCopyIf, Spec.remove] using this
+
+theorem removeCopy_eq (eq : α → α → Bool) (v : α) (P R S : List α) :
+    removeCopy eq v (P ++ R ++ S) P.length (P.length + R.length) = .ok (Spec.remove (fun x => eq x v) R) := by
+  unfold removeCopy
+  exact removeCopyIf_eq _ P R S
+
+theorem partitionCopy_eq (p : α → Bool) (P R S : List α) :
+    partitionCopy p (P ++ R ++ S) P.length (P.length + R.length)
+      = .ok (R.filter p, R.filter (fun x => !p x)) := by
+  have := partitionCopyLoop_spec p P R S R.length 0 (by simp)
+  simpa [partitionCopy] using this
+
+theorem reverseCopy_eq (P R S : List α) :
+    reverseCopy (P ++ R ++ S) P.length (P.length + R.length) = .ok R.reverse := by
+  have := reverseCopyLoop_spec P R S R.length (Nat.le_refl _)
+  simpa [reverseCopy] using this
+
+/-! ## is_partitioned / partition_point / find_first_of -/
+
+theorem partitionPoint_eq (p : α → Bool) (P R S : List α) :
+    partitionPoint p (P ++ R ++ S) P.length (P.length + R.length) = .ok (P.length + Spec.partitionPoint p R) := by
+  have := findLoop_spec (fun x => !p x) P R S R.length 0 (by simp)
+  simp only [Nat.add_zero, List.drop_zero, Spec.findIdx, findIdx_not_eq_takeWhile] at this
+  simpa [partitionPoint, Spec.partitionPoint] using this
+
+theorem isPartitioned_eq (p : α → Bool) (P R S : List α) :
+    isPartitioned p (P ++ R ++ S) P.length (P.length + R.length) = .ok (Spec.isPartitioned p R) := by
+  have h1 := findLoop_spec (fun x => !p x) P R S R.length 0 (by simp)
+  simp only [Nat.add_zero, List.drop_zero, Spec.findIdx] at h1
+  have hk : R.findIdx (fun x => !p x) ≤ R.length := List.findIdx_le_length
+  have h2 := findLoop_spec p P R S (R.length - R.findIdx (fun x => !p x)) (R.findIdx (fun x => !p x)) (by omega)
+  unfold isPartitioned
+  simp only [Nat.add_sub_cancel_left, h1, ok_bind,
+    show P.length + R.length - (P.length + R.findIdx (fun x => !p x)) = R.length - R.findIdx (fun x => !p x) from by omega,
+    h2, pure_eq_ok, Spec.isPartitioned, Spec.findIdx, drop_findIdx_not]
+  congr 1
+  rw [Bool.eq_iff_iff]
+  have hl : (R.dropWhile p).length = R.length - R.findIdx (fun x => !p x) := by
+    rw [← drop_findIdx_not]; simp
+  simp only [beq_iff_eq, List.all_eq_true, Bool.not_eq_true']
+  rw [← findIdx_eq_length_iff, hl]
+  omega
+
+theorem findFirstOf_eq (pred : α → α → Bool) (P R S s : List α) :
+    findFirstOf pred (P ++ R ++ S) P.length (P.length + R.length) s
+      = .ok (P.length + Spec.findFirstOf pred R s) := by
+  have := findLoop_spec (fun x => s.any (fun y => pred x y)) P R S R.length 0 (by simp)
+  simpa [findFirstOf, Spec.findFirstOf, Spec.findIdx] using this
+
+/-! ## rotate / rotate_copy / reverse -/
+
+/-- `rotate(first, first+k, last)`: the forward swap cycle leaves `R.drop k ++ R.take k` in the range, the
+    context untouched, returns `first + (last - middle)`, never swaps anything outside `[first,last)` and
+    its recursion never runs out of fuel (terminates) -/
+theorem rotate_eq (P R S : List α) (k : Nat) (hk : k ≤ R.length) :
+    rotate (P ++ R ++ S) P.length (P.length + k) (P.length + R.length)
+      = .ok (P ++ (Spec.rotate R k).1 ++ S, P.length + (Spec.rotate R k).2) := by
+  have h := rotateF_spec (R.length + 1) P (R.take k) (R.drop k) S (by simp; omega)
+  have e1 : P ++ R.take k ++ R.drop k ++ S = P ++ R ++ S := by
+    rw [List.append_assoc P, List.take_append_drop]
+  have e2 : (R.take k).length = k := by simp; omega
+  have e3 : P.length + k + (R.drop k).length = P.length + R.length := by simp; omega
+  rw [e1, e2, e3] at h
+  unfold rotate
+  rw [show P.length + R.length - P.length + 1 = R.length + 1 from by omega, h]
+  simp [Spec.rotate]
+example : (2 : Nat) ≤ [1, 2, 3].length := by decide
+
+theorem rotateCopy_eq (P R S : List α) (k : Nat) (hk : k ≤ R.length) :
+    rotateCopy (P ++ R ++ S) P.length (P.length + k) (P.length + R.length) = .ok (Spec.rotate R k).1 := by
+  have h1 := visitLoop_spec (P ++ R.take k) (R.drop k) S (R.length - k) 0 (by simp)
+  have h2 := visitLoop_spec P (R.take k) (R.drop k ++ S) k 0 (by simp; omega)
+  have e1 : P ++ R.take k ++ R.drop k ++ S = P ++ R ++ S := by
+    rw [List.append_assoc P, List.take_append_drop]
+  have e2 : P ++ R.take k ++ (R.drop k ++ S) = P ++ R ++ S := by
+    rw [← List.append_assoc, e1]
+  have l1 : (P ++ R.take k).length = P.length + k := by simp; omega
+  have l2 : (R.take k).length = k := by simp; omega
+  have l3 : (R.drop k).length = R.length - k := by simp
+  rw [e1, l1, l3, show P.length + k + (R.length - k) = P.length + R.length from by omega] at h1
+  rw [e2, l2] at h2
+  simp only [Nat.add_zero, List.drop_zero] at h1 h2
+  unfold rotateCopy
+  rw [show P.length + R.length - (P.length + k) = R.length - k from by omega,
+    show P.length + k - P.length = k from by omega, h1, ok_bind, h2]
+  have t1 : List.take (R.length - k) (List.drop k R) = List.drop k R := by
+    rw [← l3]; exact List.take_length
+  have t2 : List.take k (List.take k R) = List.take k R := by
+    rw [List.take_take]; simp
+  simp [Spec.rotate, t1, t2]
+example : (2 : Nat) ≤ [1, 2, 3].length := by decide
+
+/-- `reverse`, random-access branch -/
+theorem reverseRA_eq (P R S : List α) :
+    reverseRA (P ++ R ++ S) P.length (P.length + R.length) = .ok (P ++ R.reverse ++ S) := by
+  unfold reverseRA
+  by_cases h : R = []
+  · subst h; simp
+  · have hl : 0 < R.length := List.length_pos_of_ne_nil h
+    rw [if_neg (by rw [beq_iff_eq]; omega)]
+    have := reverseRALoop_spec R.length R P S P.length (P.length + R.length) (Nat.le_refl _) (Nat.le_refl _) (Nat.le_refl _)
+    rw [show P.length + R.length - P.length = R.length from by omega]
+    exact this
+
+/-- `reverse`, bidirectional branch -/
+theorem reverseBidi_eq (P R S : List α) :
+    reverseBidi (P ++ R ++ S) P.length (P.length + R.length) = .ok (P ++ R.reverse ++ S) := by
+  unfold reverseBidi
+  rw [show P.length + R.length - P.length = R.length from by omega]
+  exact reverseBidiLoop_spec R.length R P S P.length (P.length + R.length) (Nat.le_refl _) (Nat.le_refl _) (Nat.le_refl _)
 
 end Tetl.C06.Props
